@@ -2,7 +2,7 @@
 """Regenerates MANIFEST.json from the table below (kept in one place so it stays valid)."""
 import json
 
-REPO_FIXES = ["7e35490", "ecea711", "fc01ecc", "cd27f47", "7d2242b", "bc9cd84"]
+REPO_FIXES = ["7e35490", "ecea711", "fc01ecc", "cd27f47", "9ed931a", "72b95c5", "7d2242b", "bc9cd84"]
 TECH = "bounded symbolic execution of the real Python code on z3 real proxies (own engine vf.symx) + SMT (z3; UF abstraction with exact NRA refinement); counterexamples replayed concretely"
 CLAIMED = {
     "C01": ("unit level: every _solv_outp_volt/_solv_inp_curr of the 11 kinds (const / 1-D / 2-D tables, phase modes, off flags, PMux k<=3) "
@@ -38,6 +38,22 @@ CLAIMED = {
     "C11": ("all 11 constructors on proxies with arguments of any sign: ValueError <=> documented validity predicate fails; stored / evaluated "
             "parameters are magnitudes; passive elements never amplify for any accepted arguments; finite concrete panel for malformed arguments.",
             "Floats as reals; table sizes bounded.", "4/C11"),
+    "C03": ("(a) the REAL _solve loop for maxiter 0..2 from an arbitrary start iterate with numpy.allclose as its documented predicate and symbolic vtol/itol: "
+            "returned => the tested pair passed with the requested tolerances, table = tested iterate, raising => maxiter tests failed, <= maxiter+1 sweeps; "
+            "(b) no law divides by zero; (c) exact fixed points without polarity assumption: no returned inverted/amplified state; (d) feed-forward trees converge "
+            "within 2*depth+2 sweeps.", "Floats as reals; small shapes; liveness with series-resistance feedback is NOT decided (stated in DESIGN).", "4/C03"),
+    "C12": ("real save()/from_file() on proxies through an in-memory JSON pass-through: structure, every parameter / applicable limit / table entry solver-equal, "
+            "solve/rail_rep/params/phases cell-wise equal; version gate on concrete files.",
+            "Floats as reals; json round-trip contract; shape catalogue bound.", "4/C12"),
+    "C13": ("real _Component.from_file / LinReg.from_file on proxies through an in-memory TOML dict: loaded == constructed for every enumerated subset of optional "
+            "keys, const/1-D/2-D forms, symbolic limits; KeyError / ValueError / integer panels.",
+            "Floats as reals; toml contract; optional-key subsets none/all/single (quick), all (thorough).", "4/C13"),
+    "C17": ("real batt_life() with nondeterministic callbacks raising at every call index <= K and injected solver failures: vo/rs restored and snapshot unchanged on "
+            "every returning or raising path; interleavings of the real analyses leave the snapshot and later results unchanged.",
+            "Floats as reals; inner solves abstracted to exact fixed points; plot_interp/make_diag/make_hdiag not covered.", "4/C17"),
+    "C18": ("real batt_life() with a nondeterministic battery model (fresh symbolic state per call): arguments of every deplete call, loop continuation, log rows, "
+            "strictly increasing time, rejection of non-Sources, for every path with <= K deplete calls.",
+            "Floats as reals; feed-forward probe systems; K bound; positive load currents.", "4/C18"),
     "C20": ("trace_res/plane_res executed on proxies; the closed form and every stated algebraic law (proportionality, inverse, affine, symmetry, "
             "trace==plane) is an exact-NRA query proved unsat for all positive dimensions.",
             "Floats modelled as reals (rounding/overflow outside the claim).", "4/C20"),
